@@ -125,6 +125,7 @@ class RoundCut:
 class Permute(_Hash):
     """permute(state): every round of the real loop bodies equals the reference round function, for all states."""
     name = "pysnark.poseidon_hash:permute"
+    history_ok = False        # the round cuts count the rounds of the whole run
 
     CHUNK = 6
 
